@@ -331,12 +331,18 @@ func c04ElemComplete(p *Prog, r *Report) {
 						leaves = append(leaves, leaf{"Elem() of the last type", ""})
 						return
 					}
-					if depth > 4 {
+					if depth > 6 {
 						return
+					}
+					if isNilConst(v) {
+						return // "no type yet" (a lazily computed type starts as nil): not a type that could be the wrong one
 					}
 					switch x := v.(type) {
 					case *ssa.Phi:
 						for ei, e := range x.Edges {
+							if resolveLocal(e) == ssa.Value(x) {
+								continue
+							}
 							visit(e, append(append([]Guard{}, gs...), knownAtEdge(x.Block().Preds[ei], x.Block())...), depth+1)
 						}
 					case *ssa.UnOp:
